@@ -52,6 +52,8 @@ def run_C02(ctx):
     for mode in ["cbc-enc", "cbc-dec", "pcbc-enc", "pcbc-dec", "ige-enc", "ige-dec"]:
         for _ in range(ctx.n(70, 1500)):
             cases.append(block_case(ctx.rng, mode, ctx.rng.randrange(1, 7), padded=True))
+        for _ in range(ctx.n(2, 12)):
+            cases.append(long_block_case(ctx.rng, mode, ctx.thorough))
     res = ctx.run(cases)
     ctx.check_absolute(cases, res)
 
@@ -79,14 +81,20 @@ def run_C03(ctx):
         for _ in range(ctx.n(60, 1200)):
             cases.append(block_case(ctx.rng, mode, ctx.rng.randrange(1, 7), oneshot=mode.startswith("cfb"),
                                     dcalls=ctx.rng.random() < 0.5))
+        for _ in range(ctx.n(2, 12)):
+            cases.append(long_block_case(ctx.rng, mode, ctx.thorough))
     for mode in ["cfbbuf-enc", "cfbbuf-dec"]:
         for _ in range(ctx.n(80, 1500)):
             c = buf_case(ctx.rng, mode)
             if ctx.rng.random() < 0.5:
                 c.ops.append("dcalls")
             cases.append(c)
+        for _ in range(ctx.n(2, 12)):
+            cases.append(long_buf_case(ctx.rng, mode, ctx.thorough))
     for _ in range(ctx.n(60, 800)):
         cases.append(stream_case(ctx.rng, "ofb", seeks=False))
+    for _ in range(ctx.n(2, 12)):
+        cases.append(long_stream_case(ctx.rng, "ofb", ctx.thorough))
     res = ctx.run(cases)
     ctx.check_absolute(cases, res)
 
@@ -145,6 +153,9 @@ def run_C04(ctx):
             cases.append(core_case(ctx.rng, mode))
         for _ in range(ctx.n(50, 1000)):
             cases.append(stream_case(ctx.rng, mode, seeks=False))
+        for _ in range(ctx.n(1, 8)):
+            cases.append(long_stream_case(ctx.rng, mode, ctx.thorough))
+            cases.append(long_core_case(ctx.rng, mode, ctx.thorough))
         # block index crossing the counter wrap deep in the stream (positioned, no data generated for the gap)
         w_bits = CTR_FLAVORS[mode][0]
         for _ in range(ctx.n(15, 200)):
@@ -184,6 +195,14 @@ def run_C05(ctx):
                     c = Case("cts", mode, bs, w, key, iv)
             if c.ops:
                 cases.append(c)
+        for _ in range(ctx.n(2, 10)):
+            bs, w = small_matrix(ctx.rng, mode)
+            key, iv = rb(ctx.rng, 16), rb(ctx.rng, ivlen(mode, bs))
+            L = long_n(ctx.rng, ctx.thorough) * bs + ctx.rng.choice([0, 1, bs - 1, ctx.rng.randrange(0, bs)])
+            c = Case("cts", mode, bs, w, key, iv, cls_long=str(L // bs))
+            op = ctx.rng.choice(["enc", "dec", "encb", "decb"])
+            c.ops.append(f"{op} {hx(rb(ctx.rng, L))}" + (f" {hx(rb_nz(ctx.rng, L))}" if op.endswith("b") else ""))
+            cases.append(c)
     res = ctx.run(cases)
 
     def sig(c, i, hi, si):
@@ -203,6 +222,9 @@ def run_C06(ctx):
             p = ctx.rng.choice([0, 1, 15, 16, 17, 16 * c.w, 16 * c.w + 5, ctx.rng.randrange(0, 2**40), ctx.rng.randrange(0, 2**70)])
             c.ops.insert(ctx.rng.randrange(0, len(c.ops) + 1), f"seek u128 {p}")
         cases.append(c)
+    for _ in range(ctx.n(3, 16)):
+        cases.append(long_stream_case(ctx.rng, "belt", ctx.thorough))
+        cases.append(long_core_case(ctx.rng, "belt", ctx.thorough))
     res = ctx.run(cases)
     ctx.check_absolute(cases, res)
 
